@@ -78,6 +78,8 @@ const (
 	KNilFuncStringer // nil value of a named func type whose String method calls it (panics)
 	KFormatterWS     // fmt.Formatter writing through io.WriteString (the io.StringWriter fast path)
 	KRune            // a rune (int32) operand that is a marker character, a line feed or an ordinary letter: %c %q %U %#U render the character itself
+	KPanicRuntime    // Stringer whose method panics with a runtime.Error whose text carries the (unsafe) value: names[l] out of range
+	KAnonTagged      // value of an unnamed struct type whose descriptor (%T, %#v) carries marker characters in a field tag
 	KMapSortKeys     // maps whose printing order exercises fmtsort: unsigned keys around 1<<63, signed, floats incl. NaN/Inf/-0, bool, arrays, complex, uintptr
 	kindCount
 )
@@ -179,6 +181,14 @@ func (e errStrg) String() string { return "str:" + e.s }
 type panicStrg struct{ s string }
 
 func (p panicStrg) String() string { panic("boom:" + p.s) }
+
+// enumStrg: an "enum" whose String method indexes a table: out of range for every value used
+// here, so that the runtime error's text ("index out of range [N] with length 3") carries N.
+type enumStrg int
+
+var enumNames = [...]string{"a", "b", "c"}
+
+func (e enumStrg) String() string { return enumNames[int(e)] }
 
 type panicErr struct{ s string }
 
@@ -400,6 +410,28 @@ func (v *Val) build(inst int) interface{} {
 		return nilFuncStr(nil)
 	case KMapSortKeys:
 		return sortKeyMap(v.ID, inst)
+	case KPanicRuntime:
+		return enumStrg(unsafeInt(v.ID, inst))
+	case KAnonTagged:
+		n := unsafeInt(v.ID, inst)
+		switch v.ID % 4 {
+		case 0:
+			return struct {
+				A int `note:"›"`
+			}{n}
+		case 1:
+			return struct {
+				A int    `k:"‹x›"`
+				B string `‹`
+			}{n, unsafeStr(v.ID, inst)}
+		case 2:
+			return []struct {
+				A int `a›b‹c`
+			}{{n}}
+		}
+		return map[string]struct {
+			A int `note:"‹"`
+		}{"k": {n}}
 	case KMapIfaceKey:
 		return map[interface{}]string{nil: unsafeStr(v.ID, inst), 1: "one", "k": unsafeStr(v.ID+1, inst), 2.5: "f", true: "t"}
 	case KMapStructKey:
@@ -482,7 +514,7 @@ func (v *Val) hasKind(ks ...VKind) bool {
 }
 
 func (v *Val) panics() bool {
-	return v.hasKind(KPanicStringer, KPanicError, KPanicSafeFormatter, KNilMapStringer, KNilSliceError, KNilFuncStringer)
+	return v.hasKind(KPanicStringer, KPanicError, KPanicSafeFormatter, KNilMapStringer, KNilSliceError, KNilFuncStringer, KPanicRuntime)
 }
 
 // ownClass: the value (or a part of it) has a classification of its own.
@@ -493,7 +525,7 @@ func (v *Val) ownClass() bool {
 var leafKinds = []VKind{KNil, KBool, KInt, KInt8, KUint16, KUint64, KUintptr, KFloat, KComplex, KString, KBytes, KNamedStr, KNamedInt,
 	KSafeStr, KSafeInt, KRegInt, KRegStruct, KErr, KStringer, KPStringer, KNilStringer, KGoStringer, KFormatter, KSafeFormatter, KSafeMessager,
 	KErrFormatter, KErrStringer, KPanicStringer, KPanicError, KPanicSafeFormatter, KPtrStruct, KPtrRegStruct, KNilPtr, KIntPtr, KStrSlice, KIntArr, KMapKeyed,
-	KRedactable, KRedactableB, KChan, KFunc, KByteArr, KDuration, KBuilder, KSafeStringer, KFormatterWS, KMapIfaceKey, KMapStructKey, KNilMapStringer, KNilSliceError, KNilFuncStringer, KMapSortKeys, KRune}
+	KRedactable, KRedactableB, KChan, KFunc, KByteArr, KDuration, KBuilder, KSafeStringer, KFormatterWS, KMapIfaceKey, KMapStructKey, KNilMapStringer, KNilSliceError, KNilFuncStringer, KMapSortKeys, KRune, KPanicRuntime, KAnonTagged}
 
 var redactPool = []string{"", "plain", "‹x›", "a ‹b› c", "‹a›\n‹b›", "?‹?›", "‹×›", "‹ ›x\n", "pre‹u1›mid‹u2›post", "‹q?z›"}
 
@@ -559,7 +591,7 @@ func (v *Val) String() string {
 		KPanicSafeFormatter: "panicSafeFormatter", KPtrStruct: "*struct", KPtrRegStruct: "*RegStruct", KNilPtr: "nil*struct", KIntPtr: "*int", KReflectValue: "reflect.Value",
 		KSafe: "Safe", KUnsafe: "Unsafe", KSlice: "[]any", KStrSlice: "[]string", KIntArr: "[2]int", KMap: "map", KMapKeyed: "map[MyStr]int",
 		KStruct: "struct", KRedactable: "RedactableString", KRedactableB: "RedactableBytes", KChan: "chan", KFunc: "func", KByteArr: "[3]byte",
-		KDuration: "dur", KBuilder: "*StringBuilder", KSafeStringer: "SafeStringer", KFormatterWS: "FormatterWS", KMapIfaceKey: "map[any]string", KMapStructKey: "map[struct]int", KMapSortKeys: "map[sortable]string", KRune: "rune", KNilMapStringer: "nilMapStringer", KNilSliceError: "nilSliceError", KNilFuncStringer: "nilFuncStringer"}
+		KDuration: "dur", KBuilder: "*StringBuilder", KSafeStringer: "SafeStringer", KFormatterWS: "FormatterWS", KMapIfaceKey: "map[any]string", KMapStructKey: "map[struct]int", KMapSortKeys: "map[sortable]string", KRune: "rune", KPanicRuntime: "panicRuntime", KAnonTagged: "anonTagged", KNilMapStringer: "nilMapStringer", KNilSliceError: "nilSliceError", KNilFuncStringer: "nilFuncStringer"}
 	s := names[v.K]
 	if v.K == KRedactable || v.K == KRedactableB {
 		s += fmt.Sprintf("%q", v.R)
